@@ -485,6 +485,211 @@ def op_config(scn):
     return {"answers": ans, "deg_after": c.degs(D), "graph": c.gdigest(G)}
 
 
+
+def second_graph(c, scn, G):
+    if scn.get("edges2") is None:
+        return G
+    return CFGraph(set(c.names), c.edges(scn["edges2"]))
+
+
+@op("lin_equiv")
+def op_lin_equiv(scn):
+    c = Ctx(scn)
+    ok, G = call(c.graph, scn)
+    if not ok:
+        return "ERR"
+    G2 = second_graph(c, scn, G)
+    D1 = c.divisor(G, scn["D1"])
+    D2 = c.divisor(G2, scn["D2"])
+    ok, v = call(algo.linear_equivalence, D1, D2)
+    return {"equiv": v if ok else "ERR", "D1_after": c.degs(D1), "D2_after": c.degs(D2), "graph": c.gdigest(G)}
+
+
+@op("api")
+def op_api(scn):
+    c = Ctx(scn)
+    ok, G = call(c.graph, scn)
+    if not ok:
+        return "ERR"
+    out = {}
+    D = c.divisor(G, scn["deg"])
+    ok, v = call(algo.is_winnable, D)
+    out["is_winnable"] = v if ok else "ERR"
+    out["is_winnable_arg"] = c.degs(D)
+    D = c.divisor(G, scn["deg"])
+    ok, v = call(algo.q_reduction, D)
+    out["q_reduction"] = c.degs(v) if ok else "ERR"
+    out["q_reduction_arg"] = c.degs(D)
+    D = c.divisor(G, scn["deg"])
+    ok, v = call(algo.is_q_reduced, D)
+    out["is_q_reduced"] = v if ok else "ERR"
+    out["argtotal"] = D.get_total_degree()
+    out["graph"] = c.gdigest(G)
+    return out
+
+
+@op("dhar")
+def op_dhar(scn):
+    from chipfiring.CFEWDVisualizer import EWDVisualizer
+    c = Ctx(scn)
+    ok, G = call(c.graph, scn)
+    if not ok:
+        return "ERR"
+    D = c.divisor(G, scn["deg"])
+    viz = EWDVisualizer() if scn.get("viz") else None
+    ok, dh = call(DharAlgorithm, G, D, c.name(scn["q"]), viz)
+    if not ok:
+        return "ERR"
+    out = {"_hint": c.hint(G)}
+    dh.send_debt_to_q()
+    out["after_debt"] = c.degs(D)
+    out["borrows"] = [c.degs(h["divisor"]) for h in viz.history] if viz else None
+    snapshot = c.divisor(G, c.degs(D))
+    unburnt, orient = dh.run()
+    if c.degs(D) != out["after_debt"]:
+        out["run_changed_divisor"] = c.degs(D)
+    out["unburnt"] = sorted(c.index(nm) for nm in unburnt)
+    out["orient"] = c.orient_pairs(G, orient)
+    out["indeg"] = [orient.in_degree[Vertex(nm)] for nm in c.names]
+    out["outdeg"] = [orient.out_degree[Vertex(nm)] for nm in c.names]
+    mx = DharAlgorithm(G, c.divisor(G, out["after_debt"]), c.name(scn["q"])).get_maximal_legal_firing_set()
+    if sorted(c.index(nm) for nm in mx) != out["unburnt"]:
+        out["max_set_differs"] = sorted(c.index(nm) for nm in mx)
+    dh.legal_set_fire(unburnt)
+    out["after_fire"] = c.degs(D)
+    out["superstable"] = CFConfig(snapshot, c.name(scn["q"])).is_superstable()
+    out["argtotal"] = D.get_total_degree()
+    out["graph"] = c.gdigest(G)
+    return out
+
+
+class _FailPool:
+    def __init__(self, *a, **k):
+        raise OSError("pool unusable (harness stub)")
+
+
+@op("rank")
+def op_rank(scn):
+    import chipfiring.CFRank as R
+    c = Ctx(scn)
+    ok, G = call(c.graph, scn)
+    if not ok:
+        return "ERR"
+    D = c.divisor(G, scn["deg"])
+    mode = scn.get("pool", "stub")
+    saved = R.Pool
+    try:
+        if mode == "stub":
+            R.Pool = _FailPool
+        elif mode == "thread":
+            from multiprocessing.dummy import Pool as TP
+            R.Pool = TP
+        fn = R.r if scn.get("via_r") else (lambda d, optimized: R.rank(d, optimized).rank)
+        ok, v = call(fn, D, optimized=bool(scn.get("opt")))
+    finally:
+        R.Pool = saved
+    return {"rank": v if ok else "ERR", "arg": c.degs(D), "argtotal": D.get_total_degree(), "graph": c.gdigest(G)}
+
+
+@op("gonality")
+def op_gonality(scn):
+    from chipfiring.CFGonality import gonality
+    c = Ctx(scn)
+    ok, G = call(c.graph, scn)
+    if not ok:
+        return "ERR"
+    kw = {}
+    if scn.get("max") is not None:
+        kw["max_gonality"] = scn["max"]
+    ok, res = call(gonality, G, find_strategies=bool(scn.get("strat", True)), **kw)
+    if not ok:
+        return "ERR"
+    return {"gonality": res.gonality, "strategies": [c.degs(s) for s in res.winning_strategies], "graph": c.gdigest(G)}
+
+
+@op("play")
+def op_play(scn):
+    from chipfiring.CFGonality import play_gonality_game, CFGonality
+    c = Ctx(scn)
+    ok, G = call(c.graph, scn)
+    if not ok:
+        return "ERR"
+    P = c.divisor(G, scn["P"])
+    ok, res = call(play_gonality_game, G, scn["nchips"], P, c.name(scn["v"]))
+    out = {"game": res.player_a_wins if ok else "ERR"}
+    if ok and (res.player_a_wins != res.winnability):
+        out["game"] = "INCONSISTENT"
+    ok, res = call(CFGonality(G).test_n_chip_strategy, scn["nchips"], P)
+    out["test"] = [res[0], sorted(c.index(nm) for nm in res[1])] if ok else "ERR"
+    out["P_after"] = c.degs(P)
+    out["graph"] = c.gdigest(G)
+    return out
+
+
+@op("dhar_strategy")
+def op_dhar_strategy(scn):
+    from chipfiring.CFGonalityDhar import GonalityDharAlgorithm
+    c = Ctx(scn)
+    ok, G = call(c.graph, scn)
+    if not ok:
+        return "ERR"
+    base = c.divisor(G, scn["base"])
+    ok, alg = call(GonalityDharAlgorithm, G, base, c.name(scn["q"]))
+    if not ok:
+        return "ERR"
+    ok, v = call(alg.test_strategy, [c.name(i) for i in scn["strategy"]])
+    return {"wins": v if ok else "ERR", "base_after": c.degs(base)}
+
+
+@op("enhanced_dhar")
+def op_enhanced_dhar(scn):
+    from chipfiring.CFGonalityDhar import enhanced_dhar_gonality_test
+    c = Ctx(scn)
+    ok, G = call(c.graph, scn)
+    if not ok:
+        return "ERR"
+    kw = {}
+    if scn.get("max") is not None:
+        kw["max_gonality"] = scn["max"]
+    ok, res = call(enhanced_dhar_gonality_test, G, c.name(scn["q"]), **kw)
+    if not ok:
+        return "ERR"
+    k, strategies = res
+    canon = sorted((sorted(c.index(nm) for nm in s) for s in strategies), key=lambda s: (len(s), s))
+    return {"k": k, "strategies": canon}
+
+
+@op("greedy")
+def op_greedy(scn):
+    from chipfiring.CFGreedyAlgorithm import GreedyAlgorithm
+    c = Ctx(scn)
+    ok, G = call(c.graph, scn)
+    if not ok:
+        return "ERR"
+    D = c.divisor(G, scn["deg"])
+    alg = GreedyAlgorithm(G, D)
+    ok, res = call(alg.play)
+    if not ok:
+        return "ERR"
+    success, script = res
+    out = {"success": success, "_inject": {"vorder": c.vorder(G)}}
+    if success:
+        sc = script.script
+        out["script"] = [sc[nm] for nm in c.names]
+        out["final"] = c.degs(alg.divisor)
+        applied = CFLaplacian(G).apply(c.divisor(G, scn["deg"]), script)
+        out["certificate"] = (c.degs(applied) == out["final"]) and all(x >= 0 for x in out["final"])
+    else:
+        out["script"] = None
+        out["final"] = None
+        out["certificate"] = None
+        if script is not None:
+            out["script"] = "NOT-NONE"
+    out["arg"] = c.degs(D)
+    out["graph"] = c.gdigest(G)
+    return out
+
+
 # ----------------------------------------------------------------------------- main loop
 
 def _jsondefault(o):
